@@ -288,6 +288,24 @@ def run_cases(prefix, cases, model=True):
         return (1 if died else 0), False
     return (1 if died else 0), True
 
+def inject_ops(case_lines, what, rnd):
+    """the same case with extra operations spliced into the thread programs (kept schedule; the fair round-robin
+    finishes what the schedule does not cover)"""
+    out = []
+    for l in case_lines:
+        if l.startswith("thread "):
+            head, tid, rest = l.split(" ", 2)
+            ops = rest.split(" ; ")
+            for _ in range(rnd.randint(1, 3)):
+                w = rnd.choice(what)
+                if w == "inc_discarded": op = f"inc_discarded {rnd.choice([1, 2, 3, 5, 8, 13, 100])}"
+                elif w == "set_minseg": op = f"set_minseg {rnd.choice([0, 1, 8, 16, 48])}"
+                else: op = w
+                ops.insert(rnd.randint(0, len(ops)), op)
+            l = f"{head} {tid} " + " ; ".join(ops)
+        out.append(l)
+    return out
+
 def gen_shard(args):
     r = gen_shard0(args[:5])
     nsweep = args[5] if len(args) > 5 else 0
